@@ -79,6 +79,8 @@ def gen_package(rng, special=None):
         ps['root'] = None
     elif special == 'list-reserved':
         ps['list_reserved'] = True
+    elif special == 'picture-dir':
+        ps['picdir'] = True
     return ps
 
 
@@ -125,6 +127,9 @@ def package_parts(ps):
         add(n, bytes.fromhex(hx), mt)
     for d in ps['xdirs']:
         man.append((d, u''))
+    if ps.get('picdir'):
+        # a directory below Pictures/ with its zip directory member: load() registers it as a zero-byte picture
+        members.append((u'Pictures/sub/', b'')); man.append((u'Pictures/sub/', u''))
     if ps['list_reserved']:
         man.append((u'mimetype', u'text/plain'))
         man.append((u'META-INF/manifest.xml', u'text/xml'))
@@ -230,26 +235,21 @@ def run_case(chk, drv, case, oracle_only=False):
         for x in top.walk():
             files.update(x.files); marker_of[x.id] = x.marker
         if abnormal_ext(case['doc']):
-            chk.count('outside_model_zip_name_normalisation')
-        elif not oracle_only:
+            chk.count('file_name_with_abnormal_tail')      # regression input of fix 31ca861, inside the model again
+        if not oracle_only:
             ans = drv.ask('save ' + ' '.join(top.tokens()))
             if not ans.startswith('ok'):
                 chk.corr(); chk.corr_diff(case, 'archive of %d members' % len(arch.members), ans, 'driver refused the document')
             else:
                 pk.compare_listing(chk, case, ans[3:], arch, files, marker_of, 'entry list + manifest of the saved package')
-        bad = pk.oracle_c03(arch, top, loaded)
-        if abnormal_ext(case['doc']):
-            bad = [('picture-file-name-normalised-by-zipfile', d) if sig.split('-after-load')[0] in (
-                'picture-missing', 'picture-mediatype', 'manifest-omits-member', 'manifest-lists-missing-file') else (sig, d)
-                   for sig, d in bad]
-        return bad, top, arch
+        return pk.oracle_c03(arch, top, loaded), top, arch
     finally:
         ctx.close()
 
 
 def abnormal_ext(spec):
-    """decidable input class of KF-C03-3: some picture is registered by a file name whose extension (the text from its
-    last '.') is not a normalised relative path ('//', '/./', '/../' inside) - ZipFile.write() normalises the member name"""
+    """input class of the former KF-C03-3 (repaired in 31ca861): some picture is registered by a file name whose tail from
+    its last '.' is not a normalised relative path ('//', '/./', '/../' inside); only counted"""
     for p in spec['pics']:
         rp = p.get('relpath')
         if rp and '.' in rp:
@@ -270,7 +270,7 @@ def depth(spec):
 
 def gen_cases(chk, n):
     rng = chk.rng
-    specials = ['no-mimetype-member', 'root-differs', 'no-root', 'list-reserved']
+    specials = ['no-mimetype-member', 'root-differs', 'no-root', 'list-reserved', 'picture-dir']
     # fixed corner cases first: the failing cell of the old matrix, the known findings
     yield {'doc': {'kind': 'text', 'settings': False, 'pics': [], 'thumb': None, 'kids': [
         {'kind': 'spreadsheet', 'settings': True, 'pics': [{'how': 'string', 'data': '89504e47', 'mt': u'image/png'}], 'thumb': None, 'kids': [
@@ -319,8 +319,8 @@ def run(chk, replay=None):
         for sig, d in bad:
             print('replay: %s: %s' % (sig, d))
         return 1 if any(sig == replay.get('signature') for sig, d in bad) or (bad and not replay.get('signature')) else 0
-    chk.assumptions.append('zipfile: member names are taken verbatim (no NUL in names); ZipFile.write() normalises the name of a picture '
-                           'registered by file name - the one input class where that changes the name is KF-C03-3 and is excluded from the model')
+    chk.assumptions.append('zipfile: member names are taken verbatim (generated names contain no NUL; ZipFile.write() runs normpath over the name '
+                           'of a by-file picture, which is "Pictures/<uuid><splitext ext>" and already normal)')
     chk.assumptions.append('uuid4 gives a fresh name on every call (hrefs of generated pictures are distinct); mimetypes.guess_type/guess_extension not modelled')
     chk.prove(drivers=['drv_pkg'])
     drv = chk.driver('drv_pkg')
